@@ -1132,6 +1132,13 @@ package decimal
 //@   ensures[where]    result_in(q, z)
 //@   ensures[words,C08] wordsok(q) && natnorm(q)
 //@   ensures[value,C06] V(q)*y + r == old(V(x)) && r < y
+//@   ensures[len,C06]   len(q) <= len(x) && len(q) + 1 >= len(x)
+//@   hint[ret] len(x) >= 1 ==> V_ge_P(old(x), 0, len(x))
+//@   hint[ret] V_bounds(q, 0, len(q))
+//@   hint[ret] mul_mono(V(q) + 1, P(len(q)), y)
+//@   hint[ret] mul_mono(y, B, P(len(q)))
+//@   hint[ret] Pdef(len(q))
+//@   hint[ret] len(x) >= len(q) + 2 ==> P_mono(len(q) + 1, len(x) - 1)
 
 //@ func (x dec) digit(i uint) uint
 //@   pure
@@ -1176,10 +1183,27 @@ package decimal
 //@ func (z dec) div(z2, u, v dec) (q, r dec)
 //@   requires[words]   wordsok(u) && wordsok(v) && natnorm(u) && natnorm(v) && len(v) >= 1 && small(u) && small(v)
 //@   requires[overlap] z2.arr != z.arr || cap(z2) == 0 || cap(z) == 0
+//@   requires[dst]     dst_ok(z, u) && dst_ok(z2, u)
 //@   modifies memcap(z), memcap(z2)
 //@   ensures[where]    result_in(q, z) && result_in(r, z2)
 //@   ensures[words,C06,C08] wordsok(q) && natnorm(q) && wordsok(r) && natnorm(r)
 //@   ensures[value,C01,C02,C06] V(q)*old(V(v)) + V(r) == old(V(u)) && V(r) < old(V(v))
 //@   ensures[len]      len(q) <= len(u) && len(q) + len(v) >= len(u)
 //@   ensures[operands,C09,C18] (!goalias(z, u) && !goalias(z2, u) ==> samewords(u, old(u))) && (!goalias(z, v) && !goalias(z2, v) ==> samewords(v, old(v)))
+//@   hint[after:cmp#1] len(u) >= 1 ==> V_ge_P(u, 0, len(u))
+//@   hint[after:cmp#1] V_bounds(v, 0, len(v))
+//@   hint[after:cmp#1] len(u) > len(v) ==> P_mono(len(v), len(u)-1)
+
+// divLarge (Knuth D / recursive division behind a normalisation step) is the part of the
+// division that stays assumed; dec.div's dispatch, the short-dividend and the one-word
+// divisor cases are verified above.
+//@ func (z dec) divLarge(u, uIn, vIn dec) (q, r dec)
+//@   requires[words]   wordsok(uIn) && wordsok(vIn) && natnorm(uIn) && natnorm(vIn) && len(vIn) >= 2 && small(uIn) && small(vIn) && V(uIn) >= V(vIn)
+//@   requires[overlap] u.arr != z.arr || cap(u) == 0 || cap(z) == 0
+//@   modifies memcap(z), memcap(u)
+//@   ensures[where]    result_in(q, z) && result_in(r, u)
+//@   ensures[words,C06,C08] wordsok(q) && natnorm(q) && wordsok(r) && natnorm(r)
+//@   ensures[value,C01,C02,C06] V(q)*old(V(vIn)) + V(r) == old(V(uIn)) && V(r) < old(V(vIn))
+//@   ensures[len]      len(q) <= len(uIn) && len(q) + len(vIn) >= len(uIn)
+//@   ensures[operands,C09,C18] (!goalias(z, uIn) && !goalias(u, uIn) ==> samewords(uIn, old(uIn))) && (!goalias(z, vIn) && !goalias(u, vIn) ==> samewords(vIn, old(vIn)))
 //@   status assumed bounded: bounded/c06_test.go
